@@ -138,3 +138,16 @@ MUTANTS += [
  ('C12', 'abort-savepoint-no-invalidate', CONN, "        self._cache.invalidate(src.index)\n\n        src.close()", "        src.close()"),
  ('C12', 'tmpstore-load-stale-position', CONN, "        self.index[oid] = self.position\n        self.position += lenght + len(header)", "        self.index.setdefault(oid, self.position)\n        self.position += lenght + len(header)"),
 ]
+BLOB = 'blob.py'
+MUTANTS += [
+ ('C13', 'blob-abort-no-remove', BLOB, "            clean = self.fshelper.getBlobFilename(oid, serial)\n            if os.path.exists(clean):\n                remove_committed(clean)", "            clean = self.fshelper.getBlobFilename(oid, serial)"),
+ ('C13', 'f3-regress', FS, "            self._nextpos = 0\n        # Blob files are put in place by storeBlob(), i.e. before the vote.\n        self._blob_tpc_abort()", "            self._nextpos = 0\n            self._blob_tpc_abort()"),
+ ('C13', 'undo-no-blob-copy', FS, "                        if self.is_blob_record(up):", "                        if False and self.is_blob_record(up):"),
+ ('C13', 'pack-no-removed-lines', 'FileStorage/fspack.py', "                            if h.oid not in self.gc.reachable:\n                                self.blob_removed.write(\n                                    binascii.hexlify(h.oid) + b'\\n')\n                            else:\n                                self.blob_removed.write(\n                                    binascii.hexlify(h.oid + h.tid) + b'\\n')", "                            pass"),
+ ('C13', 'blobstorage-abort-no-cleanup', BLOB, "        self.__storage.tpc_abort(*arg, **kw)\n        self._blob_tpc_abort()", "        self.__storage.tpc_abort(*arg, **kw)"),
+ ('C13', 'blobstorage-undo-copies-undone-data', BLOB, "                    data, serial_before, serial_after = load_result\n                    orig_fn = self.fshelper.getBlobFilename(oid, serial_before)", "                    data, serial_before, serial_after = load_result\n                    orig_fn = self.fshelper.getBlobFilename(oid, serial_id)"),
+ ('C13', 'tmpstore-f20-regress', CONN, "        targetname = self._getCleanFilename(oid, self.index[oid])", "        targetname = self._getCleanFilename(oid, 0)"),
+ ('C13', 'blob-invalidate-keeps-uncommitted', BLOB, "        if (self._p_blob_uncommitted):\n            os.remove(self._p_blob_uncommitted)\n\n        super()._p_invalidate()", "        super()._p_invalidate()"),
+ ('C13', 'consume-copies-without-dirtying', BLOB, "            # We changed the blob state and have to make sure we join the\n            # transaction.\n            self._p_changed = True", "            pass"),
+ ('C13', 'append-ignores-committed', BLOB, "                    if self._p_blob_committed:\n                        with open(self._p_blob_committed, 'rb') as fp:\n                            utils.cp(fp, result)", "                    if False:\n                        pass"),
+]
